@@ -3716,7 +3716,11 @@ fn parse_group<'a>(
     let mut errors = term.errors.clone();
 
     // Check if we found the right parenthesis.
-    if !found {
+    if found {
+        // We found it, but if it wasn't where we expected it then the tokens in between are
+        // unaccounted for. Report that.
+        errors.extend(phony_errors);
+    } else {
         // We didn't find it. Report an error.
         errors.push(Rc::new(move |source_path, source_contents| {
             // Compute the source range for the left parenthesis.
